@@ -211,9 +211,11 @@ def run_case(spec):
     y_first = y
     y_other = np.roll(y, 3)            # the same points with OTHER labels, fitted on the SAME object afterwards
     # third fit: a step size far above the stable one (the backtracking must halve it > 20 times before a step is accepted)
-    for fit_no, (y, lr) in enumerate(((y_first, 1e-4), (y_other, 1e-4), (y_first, 1e6))):
-        tr = [lab] + ([] if fit_no == 0 else (['refit_other_labels'] if fit_no == 1 else ['learn_rate=1e6']))
-        est.set_params(learn_rate=lr)
+    # fourth fit: the stopping test may fire at once (min_iter=0, huge convergence_tol) while the first trial step overshoots
+    for fit_no, (y, lr, extra) in enumerate(((y_first, 1e-4, {}), (y_other, 1e-4, {}), (y_first, 1e6, {}),
+                                            (y_first, 1e6, {'min_iter': 0, 'convergence_tol': 1e30}))):
+        tr = [lab] + [[], ['refit_other_labels'], ['learn_rate=1e6'], ['learn_rate=1e6', 'min_iter=0', 'convergence_tol=1e30']][fit_no]
+        est.set_params(learn_rate=lr, **dict({'min_iter': 50, 'convergence_tol': 0.001}, **extra))
         del recs[:]
         if np.bincount(np.unique(y, return_inverse=True)[1]).min() <= kk:
             continue
